@@ -161,7 +161,7 @@ def run(ctx):
     proved = ctx.prove('C09', THEOREMS)
     rng = ctx.rng
     cases = []
-    n = 400 if ctx.thorough else 90
+    n = 2000 if ctx.thorough else 90
     for i in range(n):
         msgs, arrivals = gen_family(rng, ctx.thorough)
         msg = check_family(ctx, msgs, arrivals, cases)
